@@ -80,7 +80,7 @@ pub fn oracle(s: &ProgScene<X>, t: &Trace) -> Vec<Violation> {
     let term = an.task_end(0);
     // "absent failures": whether the actor failed is read off the trace (in the failing
     // variants a stop may still win the race against the panicking message)
-    let failing = term.is_some() && stopped_exit.is_none();
+    let failing = term.is_some() && (stopped_exit.is_none() || an.role_failed(0, &s.roles[0].started));
     let _ = s.extra.failing;
 
     if !failing {
